@@ -143,6 +143,11 @@ fn child(args: &[String]) -> i32 {
                 Ok(_) => if el > 4 * ms + 10_000 { 22 } else { 21 },
             }
         }
+        Some("sweep") => {
+            // `sweep <fn|op> <name> <arity> [verbose]` (operator names with blanks use `_`)
+            let (Some(kind), Some(name), Some(arity)) = (args.get(1), args.get(2), args.get(3).and_then(|s| s.parse::<usize>().ok())) else { return 2 };
+            super::hostsweep::child(kind, &name.replace('_', " ").replace("IS NULL", "IS NULL"), arity, args.get(4).is_some())
+        }
         Some("mut") => {
             let (Some(seed), Some(len)) = (args.get(1).and_then(|s| s.parse().ok()), args.get(2).and_then(|s| s.parse().ok())) else { return 2 };
             run_text(&mutated(seed, len), true)
@@ -163,6 +168,7 @@ fn spawn(args: &[&str]) -> String {
                     (Some(0), _) => "ok | rows".into(),
                     (Some(10), _) => "ok | prepare-error".into(),
                     (Some(11), _) => "ok | execute-error".into(),
+                    (Some(31), _) => "PANIC".into(),
                     (Some(20), _) => "ok | stopped-by-timeout".into(),
                     (Some(21), _) => "ok | finished-in-time".into(),
                     (Some(22), _) => "OVERRUN | completed".into(),
@@ -197,6 +203,13 @@ fn plan(ws: &[&str]) -> Option<(Vec<String>, bool)> {
         // what a mutated text evaluates to is not the model's business: only "a result or a clean error"
         ["mut", seed, len] => Some((vec!["mut".into(), seed.to_string(), len.to_string()], false)),
         ["tmo", kind, n, ms] => Some((vec!["tmo".into(), kind.to_string(), n.to_string(), ms.to_string()], false)),
+        ["sweep", kind, name, arity] => {
+            let a: usize = arity.parse().ok()?;
+            if !(1..=3).contains(&a) || !(*kind == "fn" || *kind == "op") {
+                return None;
+            }
+            Some((vec!["sweep".into(), kind.to_string(), name.to_string(), arity.to_string()], false))
+        }
         _ => None,
     }
 }
@@ -204,6 +217,12 @@ fn plan(ws: &[&str]) -> Option<(Vec<String>, bool)> {
 fn run_planned(args: &[String], with_detail: bool) -> String {
     let a: Vec<&str> = args.iter().map(|s| s.as_str()).collect();
     let r = spawn(&a);
+    if a[0] == "sweep" {
+        // how many argument tuples ran is part of the line (the driver computes the same number)
+        let n = super::hostsweep::tuples(a[3].parse().unwrap_or(1));
+        let obs = r.split(" | ").next().unwrap_or("").to_string();
+        return format!("{} | {}", obs, n);
+    }
     if with_detail { r } else { r.split(" | ").next().unwrap_or("").to_string() }
 }
 
@@ -257,6 +276,29 @@ fn generate(rng: &mut Rng, n: usize, tier: &str, out: &mut dyn Write) {
     let tmo_kinds: &[&str] = if tier == "quick" { &["create", "cross", "sort", "ssort", "sdistinct"] } else { &["create", "set", "cross", "sort", "ssort", "sdistinct", "sunion", "sagg", "sfilter"] };
     for k in tmo_kinds {
         writeln!(out, "tmo {} {} {}", k, if *k == "cross" { 300 } else { 20000 }, 5).unwrap();
+    }
+    // boundary sweep: all operators, and a seed-dependent window of the builtin functions in quick (all in thorough)
+    writeln!(out, "#case sweep").unwrap();
+    let fns = super::hostsweep::function_names();
+    let mut jobs: Vec<String> = Vec::new();
+    for op in super::hostsweep::OPERATORS {
+        for a in super::hostsweep::arities("op", op) {
+            jobs.push(format!("sweep op {} {}", op.replace(' ', "_"), a));
+        }
+    }
+    let window = if tier == "quick" { 12.min(fns.len()) } else { fns.len() };
+    let start = if fns.is_empty() { 0 } else { rng.below(fns.len() as u64) as usize };
+    for k in 0..window {
+        let f = &fns[(start + k) % fns.len()];
+        for a in [1usize, 2, 3] {
+            if tier == "quick" && a == 3 && k % 4 != 0 {
+                continue;
+            }
+            jobs.push(format!("sweep fn {} {}", f, a));
+        }
+    }
+    for j in jobs {
+        writeln!(out, "{}", j).unwrap();
     }
     writeln!(out, "#case mutated").unwrap();
     for _ in 0..n {
